@@ -634,34 +634,30 @@ func (c *Ctx) ruleR01f(rule string) {
 			c.R.Fail("coverage-lost", rule, sp.ctor, "-", "-", sp.ctor+" not found")
 			continue
 		}
-		// Many delegates to a private constructor taking the flag
-		target := fn
-		for _, call := range ssax.Calls(fn) {
-			if sc := call.Common().StaticCallee(); sc != nil && c.P.InLib(sc) && sc.Name() != "Seq" && len(sc.Blocks) > 0 && sc.Parent() == nil {
-				hasClosure := false
-				for _, b := range sc.Blocks {
-					for _, in := range b.Instrs {
-						if _, ok := in.(*ssa.MakeClosure); ok {
-							hasClosure = true
+		// the bool closure: in the constructor itself, else in a private constructor it delegates to (Many)
+		findBool := func(f *ssa.Function) (*ssa.Function, *ssa.MakeClosure) {
+			var lc *ssa.Function
+			var mc *ssa.MakeClosure
+			for _, b := range f.Blocks {
+				for _, in := range b.Instrs {
+					if m, ok := in.(*ssa.MakeClosure); ok {
+						g := m.Fn.(*ssa.Function)
+						if g.Signature.Results().Len() == 1 {
+							if bt, ok := g.Signature.Results().At(0).Type().Underlying().(*types.Basic); ok && bt.Kind() == types.Bool {
+								lc, mc = g, m
+							}
 						}
 					}
 				}
-				if hasClosure {
-					target = sc
-				}
 			}
+			return lc, mc
 		}
-		// the bool closure
-		var lc *ssa.Function
-		var mc *ssa.MakeClosure
-		for _, b := range target.Blocks {
-			for _, in := range b.Instrs {
-				if m, ok := in.(*ssa.MakeClosure); ok {
-					f := m.Fn.(*ssa.Function)
-					if f.Signature.Results().Len() == 1 {
-						if bt, ok := f.Signature.Results().At(0).Type().Underlying().(*types.Basic); ok && bt.Kind() == types.Bool {
-							lc, mc = f, m
-						}
+		lc, mc := findBool(fn)
+		if lc == nil {
+			for _, call := range ssax.Calls(fn) {
+				if sc := call.Common().StaticCallee(); sc != nil && c.P.InLib(sc) && len(sc.Blocks) > 0 && sc.Parent() == nil {
+					if l2, m2 := findBool(sc); l2 != nil {
+						lc, mc = l2, m2
 					}
 				}
 			}
@@ -672,6 +668,24 @@ func (c *Ctx) ruleR01f(rule string) {
 		}
 		// captured variables: an int (l = len(parsers)) and/or a bool (allowEmpty)
 		bad, undec := "", false
+		for i, fv := range lc.FreeVars {
+			pt, ok := fv.Type().Underlying().(*types.Pointer)
+			if !ok {
+				continue
+			}
+			if bt, ok := pt.Elem().Underlying().(*types.Basic); !ok || bt.Info()&types.IsInteger == 0 {
+				continue
+			}
+			isLen, off, resolved := lenPlusConst(mc.Bindings[i], 0)
+			switch {
+			case resolved && isLen && off == 0:
+				c.R.Hold(rule, sp.ctor+" captured count", "the count the predicate captures is len() of the constructor's parser list")
+			case resolved:
+				bad = fmt.Sprintf("the count captured by the length predicate is not the number of parsers (len%+d)", off)
+			default:
+				c.R.Exempt(sp.ctor+" captured count", "the captured count could not be resolved to len(parsers) structurally; the fold assumes it is the number of parsers")
+			}
+		}
 		for l := int64(0); l <= 4 && bad == ""; l++ {
 			for _, allow := range []bool{false, true} {
 				for n := int64(0); n <= l+2; n++ {
@@ -718,4 +732,96 @@ func accepted(b bool) string {
 		return "accepted"
 	}
 	return "rejected"
+}
+
+// lenPlusConst resolves v to len(<parameter>) + k through single-store locals, constant arithmetic and the results of
+// library helpers. resolved=false when the shape is not recognised.
+func lenPlusConst(v ssa.Value, depth int) (isLen bool, off int64, resolved bool) {
+	if depth > 6 {
+		return false, 0, false
+	}
+	switch x := v.(type) {
+	case *ssa.Alloc:
+		var stored ssa.Value
+		if x.Referrers() == nil {
+			return false, 0, false
+		}
+		for _, r := range *x.Referrers() {
+			if st, ok := r.(*ssa.Store); ok && st.Addr == ssa.Value(x) {
+				if stored != nil {
+					return false, 0, false
+				}
+				stored = st.Val
+			}
+		}
+		if stored == nil {
+			return false, 0, false
+		}
+		return lenPlusConst(stored, depth+1)
+	case *ssa.UnOp:
+		if x.Op == token.MUL {
+			return lenPlusConst(x.X, depth+1)
+		}
+	case *ssa.Call:
+		if bi, ok := x.Call.Value.(*ssa.Builtin); ok && bi.Name() == "len" {
+			a := x.Call.Args[0]
+			for i := 0; i < 4; i++ {
+				u, ok := a.(*ssa.UnOp)
+				if !ok || u.Op != token.MUL {
+					break
+				}
+				al, ok := u.X.(*ssa.Alloc)
+				if !ok || al.Referrers() == nil {
+					break
+				}
+				var stored ssa.Value
+				n := 0
+				for _, r := range *al.Referrers() {
+					if st, ok := r.(*ssa.Store); ok && st.Addr == ssa.Value(al) {
+						stored = st.Val
+						n++
+					}
+				}
+				if n != 1 {
+					break
+				}
+				a = stored
+			}
+			if _, isP := a.(*ssa.Parameter); isP {
+				return true, 0, true
+			}
+		}
+	case *ssa.BinOp:
+		if x.Op == token.ADD || x.Op == token.SUB {
+			if k, ok := ssax.ConstInt(x.Y); ok {
+				l, o, r := lenPlusConst(x.X, depth+1)
+				if x.Op == token.SUB {
+					k = -k
+				}
+				return l, o + k, r
+			}
+		}
+	case *ssa.Extract:
+		call, ok := x.Tuple.(*ssa.Call)
+		if !ok {
+			return false, 0, false
+		}
+		h := call.Call.StaticCallee()
+		if h == nil || len(h.Blocks) == 0 {
+			return false, 0, false
+		}
+		first := true
+		for _, r := range ssax.Returns(h) {
+			l, o, res := lenPlusConst(r.Results[x.Index], depth+1)
+			if !res || !l {
+				return false, 0, false
+			}
+			if !first && o != off {
+				return false, 0, false
+			}
+			off, first = o, false
+		}
+		return true, off, !first
+	}
+	return false, 0, false
 }
